@@ -101,6 +101,24 @@ Loop(a, b, w, D, fuel) ==
   ELSE IF fuel = 0 \/ Wild(a, b) THEN <<"diverged">>
   ELSE LET n == Clipped(a, b, w, D) IN Loop(n[1], n[2], w, D, fuel - 1)
 Drawn(s, w, D) == IF IsPoint(s, D) THEN <<>> ELSE Loop(Pt(s[1], s[2]), Pt(s[3], s[4]), w, D, IF D = {} THEN 8 ELSE 4)
+\* Does the run compute a crossing whose COMPUTED coordinate lands exactly on a window line (a corner crossing, or
+\* y2 = x on a y line)?  Under an inexact float embedding such a tie is decided by the last bit, so the driver
+\* replays these cases only under the exact embeddings (the same policy as C18 for shared edges).
+OnXLine(v, w) == v = MinX(w) \/ v = MaxX(w)
+OnYLine(v, w) == v = MinY(w) \/ v = MaxY(w)
+TieAt(a, b, w, D) ==
+  LET first == MovesFirst(a, b, w)
+      out   == IF first THEN Code(a, w) ELSE Code(b, w)
+      c     == Crossing(a, b, out, w) IN
+  \/ (("top" \in out \/ "bottom" \in out) /\ OnXLine(c[1], w))
+  \/ (~("top" \in out \/ "bottom" \in out) /\ OnYLine(c[2], w))
+  \/ (~first /\ "y2x" \in D /\ OnYLine(c[1], w))
+RECURSIVE Ties(_, _, _, _, _)
+Ties(a, b, w, D, fuel) ==
+  IF Accepts(a, b, w) \/ Rejects(a, b, w) \/ fuel = 0 \/ Wild(a, b) THEN FALSE
+  ELSE TieAt(a, b, w, D) \/ LET n == Clipped(a, b, w, D) IN Ties(n[1], n[2], w, D, fuel - 1)
+HasTies(s, w) == \/ Ties(Pt(s[1], s[2]), Pt(s[3], s[4]), w, {}, 8)
+                 \/ Ties(Pt(s[1], s[2]), Pt(s[3], s[4]), w, {"y2x"}, 4)
 RECURSIVE StepsOf(_, _, _, _, _)
 StepsOf(a, b, w, D, fuel) == IF Accepts(a, b, w) \/ Rejects(a, b, w) \/ fuel = 0 THEN 0
                              ELSE LET n == Clipped(a, b, w, D) IN 1 + StepsOf(n[1], n[2], w, D, fuel - 1)
@@ -176,6 +194,7 @@ Magnitude == /\ pc = "accepted" /\ pc' = IF p1 = p2 THEN "nothing" ELSE "drawn"
 Emit == /\ EMIT /\ pc = "start" /\ pc' = "emitted" /\ UNCHANGED <<window, seg, p1, p2, c1, c2, steps>>
         /\ PrintT(ToJson([window |-> window, seg |-> seg,
                           draws |-> IF MustDraw(seg, window) = <<>> THEN 0 ELSE 1,
+                          ties |-> IF HasTies(seg, window) THEN 1 ELSE 0,
                           steps |-> StepsOf(Pt(seg[1], seg[2]), Pt(seg[3], seg[4]), window, {}, 8),
                           c1 |-> Val(Code(Pt(seg[1], seg[2]), window)), c2 |-> Val(Code(Pt(seg[3], seg[4]), window))]))
 Next == PointTest \/ OutCodes \/ TrivialAccept \/ TrivialReject \/ ClipEndpoint \/ Magnitude \/ Emit
